@@ -124,3 +124,8 @@ func CallTargetR[R any](args ...any) R { var z R; return z }
 
 // FreeVar: the value of the variable named name captured by the closure under contract.
 func FreeVar[T any](name string) T { var z T; return z }
+
+// FieldTag is the struct tag of field name of struct type T, as written in the
+// source; FieldType is that field's Go type, printed with package names.
+func FieldTag[T any](name string) string  { return "" }
+func FieldType[T any](name string) string { return "" }
